@@ -40,6 +40,10 @@ for k in range(n):
             part = json.load(open(pf))
         except Exception as e:  # truncated
             part = None
+    if part is not None and not part.get("done"):
+        # the child wrote a part file but did not finish its planned cases
+        violations.extend(part.get("violations") or [])
+        part = None
     if part is not None and part.get("done"):
         parts.append(part)
         if code not in (0, 1):
